@@ -25,7 +25,7 @@ def git(*args: str, **kw) -> subprocess.CompletedProcess:
 
 
 def run_check(worktree: str, pid: str) -> tuple[int, list[str], str]:
-    proc = subprocess.run(["./check", pid, "--tier", "quick"], cwd=ROOT, env=dict(os.environ, VERIF_REPO=worktree),
+    proc = subprocess.run(["./check", pid, "--tier", "quick"], cwd=ROOT, env=dict(os.environ, VERIF_REPO=worktree, VERIF_OUT_DIR=f"/tmp/vf-out-{os.getpid()}"),
                           capture_output=True, text=True, timeout=3600)
     out = proc.stdout + proc.stderr
     keys = re.findall(r"violation key=(\S+)", out)
